@@ -71,9 +71,10 @@ ResvOk == Eq(Slice(Plain, 6, 8), State16("resv"))
 
 \* ev: [kind |-> "none" | "modify" | "loseresv", at |-> k (before the k-th Get SDR), strict |-> BOOLEAN]
 Rules(pre, post, ev) ==
-  LET t1 == <<10, 0, 0, 0>>  t2 == <<10, 0, 0, 0>>
-      tA == IF ev.kind = "modify" /\ ev.stamp = "add" THEN <<20, 0, 0, 0>> ELSE t1
-      tE == IF ev.kind = "modify" /\ ev.stamp = "erase" THEN <<20, 0, 0, 0>> ELSE t2
+  LET hasTs == "ts" \in DOMAIN ev        \* explicit <<addition, erase>> time stamps before and after the modification
+      t1 == IF hasTs THEN LE32s(ev.ts[1]) ELSE <<10, 0, 0, 0>>  t2 == IF hasTs THEN LE32s(ev.ts[2]) ELSE <<10, 0, 0, 0>>
+      tA == IF hasTs THEN LE32s(ev.ts[3]) ELSE IF ev.kind = "modify" /\ ev.stamp = "add" THEN <<20, 0, 0, 0>> ELSE t1
+      tE == IF hasTs THEN LE32s(ev.ts[4]) ELSE IF ev.kind = "modify" /\ ev.stamp = "erase" THEN <<20, 0, 0, 0>> ELSE t2
       trigger == IF ev.kind = "none" THEN <<>> ELSE
         << [rule |-> "event", when |-> <<IsCmd(35)>>, ifstate |-> <<St("n", ev.at - 1), St("phase", 0)>>,
             \* 33.11.2: a modification that changes no existing record ID may leave the reservation valid ("keep"):
@@ -123,6 +124,14 @@ Events ==
                    [kind |-> "modify", at |-> k, strict |-> strict, stamp |-> st, keep |-> FALSE]) : k \in 1..(WalkReqs(pre) + 1), strict \in BOOLEAN, st \in {"add", "erase"} }
           \cup { Script("modkeep-" \o ToString(b[1]) \o "-" \o ToString(k) \o "-" \o st, pre, post,
                         [kind |-> "modify", at |-> k, strict |-> TRUE, stamp |-> st, keep |-> TRUE]) : k \in 1..(WalkReqs(pre) + 1), st \in {"add", "erase"} }
+          \* reservation kept (33.11.2), so the time stamps are the only signal: the stamp that advances stays older than
+          \* the other one (a BMC whose clock was lost reports small erase times next to a real addition date), both
+          \* advance, and an advance that only shows in a higher byte
+          \cup { Script("modts-" \o ToString(b[1]) \o "-" \o ToString(k) \o "-" \o ToString(ts), pre, post,
+                        [kind |-> "modify", at |-> k, strict |-> TRUE, stamp |-> "add", keep |-> TRUE, ts |-> ts])
+                 : k \in {1, 2, WalkReqs(pre), WalkReqs(pre) + 1},
+                   ts \in { <<1000, 900, 1000, 950>>, <<900, 1000, 950, 1000>>, <<16000000, 5000, 16000000, 5060>>, <<10, 10, 20, 20>>,
+                            <<255, 7, 256, 7>>, <<7, 65535, 7, 65536>>, <<5, 9, 6, 9>> } }
           \cup { Script("lose-" \o ToString(b[1]) \o "-" \o ToString(k) \o (IF strict THEN "S" ELSE "L"), pre, <<>>,
                         [kind |-> "loseresv", at |-> k, strict |-> strict, stamp |-> "add", keep |-> FALSE]) : k \in 1..WalkReqs(pre), strict \in BOOLEAN }
           : b \in bases }
